@@ -96,7 +96,12 @@ class DependencyBuilder:
     ) -> Dependencies:
         results = Dependencies()
         for dependant in dependant_types:
-            if isinstance(dependant, pydsdl.UnionType):
+            if isinstance(dependant, pydsdl.ServiceType):
+                candidates = [dependant.request_type, dependant.response_type]
+            else:
+                candidates = [dependant]
+            # A delimited (non-sealed) union is a DelimitedType wrapping the UnionType.
+            if any(isinstance(c.inner_type if isinstance(c, pydsdl.DelimitedType) else c, pydsdl.UnionType) for c in candidates):
                 # Unions always require integer for the tag field.
                 results.uses_integer = True
                 results.uses_union = True
